@@ -62,6 +62,59 @@ def run_shard(spec, acc):
             names = trees.NAMES + (rnd.sample(WEIRD, 3) if rnd.random() < 0.5 else [])
             tspec = trees.random_project(rnd, depth=rnd.choice([2, 3, 4]), imports_per_file=(0, 3), names=names)
             one_tree(tspec, acc, rnd, sample=(i % 11 == 0))
+            if i % 3 == 0:
+                excluded_unparsable(tspec, acc, rnd)
+
+
+UNPARSABLE = {
+    "legacy_py2.py": "print 'python 2'\nexec \"x = 1\"\n",
+    "tmpl_file.py": "{{ cookiecutter.project_slug }} = {% if x %}1{% endif %}\n",
+    "latin_bytes.py": {"hex": "x = '".encode().hex() + "f6df" + "'\n".encode().hex()},
+}
+
+
+def excluded_unparsable(tspec, acc, rnd, forced=None):
+    """Files that match an exclusion pattern contribute nothing - so they need not even be valid source: the scan of a
+    tree with excluded files that cannot be parsed equals the unfiltered scan of the same tree without those files."""
+    from pytestarch import get_evaluable_architecture
+
+    clean = {"root": tspec["root"], "dirs": list(tspec.get("dirs", [])), "files": dict(tspec["files"])}
+    dirty = {"root": tspec["root"], "dirs": list(tspec.get("dirs", [])), "files": dict(tspec["files"])}
+    dirs = trees.all_dirs(tspec)
+    placed = forced["placed"] if forced else {}
+    if not forced:
+        for name in rnd.sample(sorted(UNPARSABLE), rnd.randint(1, 3)):
+            d = rnd.choice(dirs)
+            placed[(d + "/" if d else "") + name] = name
+    for rel, name in placed.items():
+        dirty["files"][rel] = UNPARSABLE[name]
+    use_regex = forced["use_regex"] if forced else rnd.random() < 0.4
+    names = sorted(set(placed.values()))
+    pats = [".*/" + re.escape(n) + "$" for n in names] if use_regex else ["*" + n for n in names]
+    case = {"kind": "excluded-unparsable", "spec": tspec, "placed": placed, "use_regex": use_regex}
+    r1, r2 = trees.write_tree(clean), trees.write_tree(dirty)
+    try:
+        HUB.case = case
+        get_evaluable_architecture(r1, r1, exclusions=(), regex_exclusions=())
+        ref = HUB.scan_events[-1]
+        kw = {"exclusions": (), "regex_exclusions": tuple(pats)} if use_regex else {"exclusions": tuple(pats)}
+        try:
+            get_evaluable_architecture(r2, r2, **kw)
+        except Exception as e:  # noqa: BLE001  (the monitor recorded it as a failed scan)
+            acc.count("excluded_unparsable_scans_raised")
+            acc.hist("excluded_unparsable_exception", type(e).__name__)
+            return
+        finally:
+            acc.evaluated()
+            acc.count("excluded_unparsable_scans")
+        se = HUB.scan_events[-1]
+        attribute_scan_findings(se, {"nodes": "C08", "edge-missing": "C08", "edge-extra": "C08"}, case)
+        if se.state != ref.state:
+            HUB.violation("C08", "excluded-file-changes-architecture", "a tree with excluded (unparsable) files differs from the same tree without them", {"placed": placed, "patterns": pats, "nodes_diff": sorted(se.nodes ^ ref.nodes), "imports_diff": sorted(se.imps ^ ref.imps)})
+        acc.nontrivial({"t": tspec, "p": sorted(placed)})
+    finally:
+        trees.remove_tree(r1)
+        trees.remove_tree(r2)
 
 
 # -- (c) conversion -------------------------------------------------------------------------
@@ -322,6 +375,8 @@ def replay(case, acc):
             HUB.case = case
             HUB.violation("C08", "convert:replayed", f"pattern {p!r} vs {s!r}: code says {got}", case)
         return
+    if case["kind"] == "excluded-unparsable":
+        return excluded_unparsable(case["spec"], acc, random.Random(0), forced={"placed": case["placed"], "use_regex": case["use_regex"]})
     forced = {"mp": case["mp"], "use_regex": case.get("use_regex", False), "patterns": case.get("patterns", []), "include": case.get("include", False)}
     one_tree(case["spec"], acc, random.Random(0), forced=forced)
 
@@ -336,6 +391,8 @@ def floors(acc, tier):
     for sh in ("text", "*text", "text*", "*text*"):
         if acc.hists.get("glob_shape", {}).get(sh, 0) == 0:
             why.append(f"glob shape {sh} never used in a scan")
+    if acc.counters["excluded_unparsable_scans"] < 30:
+        why.append(f"only {acc.counters['excluded_unparsable_scans']} scans with excluded files that cannot be parsed")
     if acc.counters["patterns_with_regex_metacharacters"] == 0:
         why.append("no pattern with regex metacharacters")
     if acc.counters["scan_model_errors"]:
